@@ -116,6 +116,10 @@ func variants() []*Variant {
 		Mut: withCfg(func(c *Config) { c.Types = []string{"A", "B"} }), Roots: []string{"A"}})
 	add(&Variant{Name: "types:N1-vs-N1+N2", Prop: "C12", Base: "P-nest", Quick: true, CfgA: func(c *Config) { c.Types = []string{"N1"} },
 		Mut: withCfg(func(c *Config) { c.Types = []string{"N2", "N1"} }), Roots: []string{"N1"}})
+	add(&Variant{Name: "types:Leaf-vs-Top+Mid+Leaf", Prop: "C12", Base: "P-order", Quick: true, CfgA: func(c *Config) { c.Types = []string{"Leaf"} },
+		Mut: withCfg(func(c *Config) { c.Types = []string{"Top", "Mid", "Leaf"} }), Roots: []string{"Leaf"}})
+	add(&Variant{Name: "types:Mid-vs-Top+Mid", Prop: "C12", Base: "P-order", Quick: true, CfgA: func(c *Config) { c.Types = []string{"Mid"} },
+		Mut: withCfg(func(c *Config) { c.Types = []string{"Top", "Mid"} }), Roots: []string{"Mid"}})
 	add(&Variant{Name: "extra-message", Prop: "C12", Base: "P-multi", Quick: true, Mut: extraMessage, Structs: "B"})
 	add(&Variant{Name: "extra-dep-file", Prop: "C12", Base: "P-oneof", Quick: true, Mut: ident, Extra: []*d.FileDescriptorProto{extraDepFile()}})
 	// C15: declaration order (sort off)
